@@ -151,6 +151,34 @@ fn loghash_other(prop: &str, seed: u64, run: u64) -> u64 {
             }
             h
         }
+        "c18" => {
+            let w = tzsim::work("quick");
+            let mut st = report::Stats::default();
+            // run index -> (corpus file | synthesized file), complete lookup log hashed
+            let idx = if run % 2 == 0 { run / 2 % w.corpus.len().max(1) as u64 } else { w.corpus.len() as u64 + run };
+            let h = tzsim::one_run(&w, seed, idx, &mut st).unwrap_or(0);
+            let mut h = report::fnv_mix(h, st.violations.len() as u64);
+            for (k, v) in &st.counters {
+                h = report::fnv_mix(h, report::fnv(k.as_bytes()));
+                h = report::fnv_mix(h, *v);
+            }
+            h
+        }
+        "c19" => {
+            let mut w = faults::work("quick");
+            w.enum_corpus.clear();
+            w.n_enum_synth = 0;
+            let mut st = report::Stats::default();
+            // even runs: seeded fault sequences; odd runs: hostile footers
+            let idx = if run % 2 == 0 { run / 2 } else { w.n_sequences + run / 2 };
+            let h = faults::one_run(&w, seed, idx, &mut st);
+            let mut h = report::fnv_mix(h, st.violations.len() as u64);
+            for (k, v) in &st.counters {
+                h = report::fnv_mix(h, report::fnv(k.as_bytes()));
+                h = report::fnv_mix(h, *v);
+            }
+            h
+        }
         _ => 0,
     }
 }
@@ -220,4 +248,4 @@ fn selftest_determinism(tier: &str) -> i32 {
     code
 }
 
-const ENGINES_WITH_LOGHASH: &[&str] = &["c16", "c17"];
+const ENGINES_WITH_LOGHASH: &[&str] = &["c16", "c17", "c18", "c19"];
